@@ -370,6 +370,46 @@ def _expand_get_default(st):
     return st2 if t.hit else st
 
 
+class _OrDefault(ast.NodeTransformer):
+    """``x or d`` with a plain local ``x`` in a value position is ``x if x else d`` (x is read
+    twice, which nothing can observe for a local)."""
+    hit = False
+
+    def visit_Lambda(self, node):
+        return node
+    visit_ListComp = visit_SetComp = visit_DictComp = visit_GeneratorExp = visit_Lambda
+    visit_Compare = visit_Lambda
+
+    def visit_UnaryOp(self, node):
+        if isinstance(node.op, ast.Not):
+            return node
+        return self.generic_visit(node)
+
+    def visit_IfExp(self, node):
+        node.body = self.visit(node.body)
+        node.orelse = self.visit(node.orelse)
+        return node
+
+    def visit_BoolOp(self, node):
+        if isinstance(node.op, ast.Or) and len(node.values) == 2 and \
+                isinstance(node.values[0], ast.Name):
+            new = ast.IfExp(test=node.values[0], body=node.values[0], orelse=node.values[1])
+            ast.copy_location(new, node)
+            ast.fix_missing_locations(new)
+            self.hit = True
+            return new
+        return node
+
+
+def _expand_or_default(st):
+    if not any(isinstance(n, ast.BoolOp) for n in ast.walk(st)):
+        return st
+    import copy
+    t = _OrDefault()
+    st2 = t.visit(copy.deepcopy(st))
+    return st2 if t.hit else st
+
+
 class _Replace(ast.NodeTransformer):
     def __init__(self, old, new):
         self.old = old
@@ -735,6 +775,7 @@ class Builder:
                            ast.Raise)) and not _is_logger_call_stmt(st) and \
                 not (isinstance(st, ast.Assign) and self._log_only_stmt(st)):
             st = _expand_get_default(st)
+            st = _expand_or_default(st)
             ie = _first_ifexp(st)
             if ie is not None:
                 # ``x = a if c else b`` is the statement ``if c: x = a else: x = b``
